@@ -162,6 +162,12 @@ def run_sequence(seq, p):
         except Exception as ex:  # noqa: BLE001
             problems.append(("harness-plain-call-raises", ci, repr(ex)))
             return problems
+        secret_leaves = [x for x in leaves(got if isinstance(got, (list, tuple, dict)) else [got])
+                         if isinstance(x, (rt.LinComb, H.boolean.LinCombBool, H.fixedpoint.LinCombFxp))]
+        if secret_leaves:
+            problems.append(("returned-structure-contains-unconverted-secrets", ci,
+                             "snark returned %d secret object(s) instead of plain values (no public output was created for them)" % len(secret_leaves)))
+            return problems
         big = any(isinstance(x, (int, float)) and not isinstance(x, bool) and abs(x) > 2 ** 40 for x in leaves(list(plain)))
         if plainify(got) != plainify(want) and not big:      # big operands: Python's own float arithmetic is inexact, only the published integers are compared
             problems.append(("returned-structure-differs", ci, "snark returned %r, the undecorated function gives %r" % (got, want)))
@@ -294,6 +300,15 @@ def sequences(level):
         seqs.append([(b, [{("k%02d" % i): i for i in range(33)}])])
         seqs.append([(b, list(range(3, 20)))])                      # 17 positional arguments
         seqs.append([(b, [[S] * 33 + [4]])])
+    # long sequences that start with scalars and contain a container later on (and the other way round)
+    late = list(range(1, 36)) + [[7, 8]] + [9, (10, 2.5), {"k": 11}]
+    early = [[1, 2]] + list(range(3, 40))
+    for b in ("identity", "mixed", "same_object"):
+        seqs.append([(b, [late])])
+        seqs.append([(b, [tuple(late)])])
+        seqs.append([(b, [early])])
+        seqs.append([(b, list(range(1, 33)) + [[5, 6], 7])])        # 34 positional arguments, a list among the last ones
+        seqs.append([(b, [[S] * 32 + [[S, 2]]])])
     seqs.append([("product", [3 + (i % 5), S]) for i in range(40)])   # 40 calls in one run
     seqs.append([("identity", [[i, 2.5]]) for i in range(70)])
     sub = calls[:: (2 if level >= 1 else 5)]
